@@ -113,6 +113,11 @@ namespace rkcommon {
         const box_t<T, N> &box,
         const range_t<T> &tRange = range_t<T>(0, inf))
     {
+      // the slab test below orders the bounds per axis, which would turn an
+      // empty (inverted) box into a non-empty one
+      if (box.empty())
+        return range_t<T>();
+
       const auto mins = (box.lower - org) * rcp_safe(dir);
       const auto maxs = (box.upper - org) * rcp_safe(dir);
       return range_t<T>(
